@@ -63,7 +63,8 @@ Definition ok_or_diag {A} (m : pres A) : Prop :=
      py_stmt_ok code    ast.parse(code) succeeds (used for `~` statements)
      py_call_shape args ast.parse("_temp_(" ++ args ++ ")") : number of positional arguments and
                         the keyword names ("**" for a **kwargs entry, and "*" added when a starred positional
-                        argument is present), None on SyntaxError *)
+                        argument is present; the names in the order written, a repeated keyword occurs as
+                        often as it is written), None on SyntaxError *)
 Record pyparse := mkPyparse {
   py_stmt_ok : string -> bool;
   py_call_shape : string -> option (nat * list string) }.
